@@ -32,7 +32,7 @@ def digits(v, w):
 
 def mk(pid, kinds, strict, source='string', perm=None, widths=None, T=60, sym_ids=False, sort_objects=False, tag='',
        mids=None, may_fail=True, rc_mid=None, sym_rc=None, rc_completed=False, merge_twice=False, ncs_ids=None,
-       same_basename=False):
+       same_basename=False, idlen=1):
     """sym_ids: message IDs are symbolic digit strings of the given widths (used where no message fails:
     a failing merge formats its message ID into the error text, which realises the integer and turns
     one path into one path per value); otherwise they are the concrete ``mids``."""
@@ -75,8 +75,10 @@ def mk(pid, kinds, strict, source='string', perm=None, widths=None, T=60, sym_id
                     pre.append('m%d != m%d' % (a, b))
             if sym_rc and widths[a] == sym_rc:
                 pre.append('m%d != m_rc' % a)
-    pre = str_pre(strs) + distinct(strs) + pre
+    pre = str_pre(strs, idlen) + distinct(strs) + pre
     cid = '%s/%s/%s/%s' % (pid, '+'.join(kinds), 'strict' if strict else 'non-strict', source)
+    if idlen != 1:
+        cid += '/padded-or-prefix-ids'
     if perm:
         cid += '/perm-' + ''.join(map(str, perm))
     cid += ('/symids-' + ''.join(map(str, widths))) if sym_ids else ('/ids-' + '-'.join(P['mids']))
@@ -131,6 +133,12 @@ def cells(tier):
             out.append(mk(PID, pair, strict, 'string', T=T, rc_completed=True))
             out.append(mk(PID, pair, strict, 'file', T=T, merge_twice=True))
     out.append(mk(PID, ('roItemInsert', 'roStorySend', 'roStoryReplace'), False, 's3', T=T, rc_completed=True))
+    # an "unknown" ID of two characters may be an existing one-character ID padded with a space or extended: whatever
+    # the library makes of it, the collection and the one-by-one addition agree
+    for pair in (('roStoryMove', 'roStoryDelete'), ('roItemInsert', 'roStoryReplace'), ('roStorySend', 'roItemDelete')):
+        for strict in (True, False):
+            out.append(mk(PID, pair, strict, 'string', T=T, idlen='1-2'))
+    out.append(mk(PID, ('roStoryMove', 'roStoryInsert'), False, 'file', T=T, idlen='1-2', perm=[2, 0, 1]))
     # roReplace among other messages
     for tr in (('roMetadataReplace', 'roReplace', 'roStoryAppend'), ('roStoryMove', 'roReplace', 'roDelete')):
         for strict in (True, False):
